@@ -418,6 +418,29 @@ Proof.
     rewrite ex_set_path_path. eapply branch_load_ok; eassumption.
 Qed.
 
+Lemma ex_set_lazy_path e l : e_path (ex_set_lazy e l) = e_path e.
+Proof. reflexivity. Qed.
+Lemma log_poll_path e me : e_path (log_poll e me) = e_path e.
+Proof. unfold log_poll. destruct (get_thread e me); reflexivity. Qed.
+Global Hint Rewrite ex_set_lazy_path log_poll_path : epath.
+
+Definition lp_exec (r : (exec * N) + (exec * panic)) : exec :=
+  match r with inl (e, _) => e | inr (e, _) => e end.
+
+Lemma load_post_ok e me a o : path_ok (e_path e) (e_path (lp_exec (load_post e me a o))).
+Proof.
+  unfold load_post.
+  destruct (get_atomic (causality_inc e me) a) as [s|]; [|cbn; autorewrite with epath; apply path_ok_refl].
+  destruct (get_thread (causality_inc e me) me) as [t|]; [|cbn; autorewrite with epath; apply path_ok_refl].
+  pose proof (choose_store_ok (causality_inc e me)
+                (match_load_to_stores s me (t_caus t) (t_last_yield t) o)) as H.
+  destruct (choose_store (causality_inc e me) (match_load_to_stores s me (t_caus t) (t_last_yield t) o))
+    as [e1 [idx|p]]; cbn [fst] in H; autorewrite with epath in H.
+  - destruct (atomic_load s me (t_caus t) idx o) as [[[s' c'] v]|p]; cbn [lp_exec];
+      autorewrite with epath; exact H.
+  - cbn [lp_exec]. exact H.
+Qed.
+
 (* ---- one micro-operation ---- *)
 Ltac use_eqs :=
   repeat match goal with
@@ -450,6 +473,10 @@ Ltac micro_step :=
       let H := fresh "Hfr" in
       pose proof (release_write_path e me m) as H;
       destruct (release_write e me m); cbn [res_exec] in H
+  | |- context [load_post ?e ?me ?a ?o] =>
+      let H := fresh "Hlp" in
+      pose proof (load_post_ok e me a o) as H;
+      destruct (load_post e me a o) as [[? ?]|[? ?]]; cbn [lp_exec] in H
   | |- context [choose_store ?e ?s] =>
       let H := fresh "Hcs" in
       pose proof (choose_store_ok e s) as H;
